@@ -64,8 +64,16 @@ def gen_dag(rng, n, keys, size, linear_ok=False, insts=()):
     nodes = [["var", k] for k in keys]
     linear = [True] * len(keys)          # FieldAdapters: never combined directly (they would form linear
     nonlin = []                          # SumOperator/ChainOperator leaves, which the optimiser ignores)
+    lin_nodes = []
     for _ in range(size):
         r = int(rng.integers(0, 10))
+        if linear_ok and rng.random() < 0.15:
+            # a LINEAR operator object (diagonal @ FieldAdapter: a ChainOperator, a bare leaf for the optimiser) that can
+            # be used as it is in sums/products and wrapped into non-linear chains
+            nodes.append(["dlin", [float(rng.uniform(0.5, 1.5)) for _ in range(n)], int(rng.integers(0, len(keys)))])
+            linear.append(True)
+            lin_nodes.append(len(nodes) - 1)
+            continue
         if insts and rng.random() < 0.35:
             # one operator instance on (possibly) several inputs: prefer the FieldAdapters as arguments
             j = int(rng.integers(0, len(keys))) if rng.random() < 0.7 else int(rng.integers(0, len(nodes)))
@@ -91,6 +99,10 @@ def gen_dag(rng, n, keys, size, linear_ok=False, insts=()):
             j = nonlin[int(rng.integers(0, len(nonlin)))]
             # reuse: with probability 1/3 the same object on both sides, else prefer recent nodes
             k = j if rng.random() < 0.33 else nonlin[int(rng.integers(max(0, len(nonlin) - 4), len(nonlin)))]
+            if lin_nodes and rng.random() < 0.4:
+                # a bare linear operand next to a non-linear one (either side)
+                ln = lin_nodes[int(rng.integers(0, len(lin_nodes)))]
+                j, k = (ln, k) if rng.random() < 0.5 else (j, ln)
             nodes.append(["sum" if r < 8 else "prod", j, k])
         linear.append(False)
         nonlin.append(len(nodes) - 1)
@@ -107,7 +119,9 @@ def build(ift, dom, nodes, insts=()):
         if k == "app":
             objs.append(iobj[nd[1]] @ objs[nd[2]])
             continue
-        if k == "var":
+        if k == "dlin":
+            o = ift.makeOp(ift.Field.from_raw(dom, np.array(nd[1]))) @ objs[nd[2]]
+        elif k == "var":
             o = ift.FieldAdapter(dom, nd[1])
         elif k == "ptw":
             o = objs[nd[2]].ptw(nd[1])
@@ -335,7 +349,7 @@ class C05(C.Check):
     def gen_cases(self, ctx):
         rng = ctx.rng(5)
         cases = [c for c in ctx.corpus() if c.get("kind") == "dag"]
-        want = 60 if ctx.quick else 500
+        want = 160 if ctx.quick else 800
         tries = 0
         while len(cases) < want + len([c for c in ctx.corpus() if c.get("kind") == "dag"]) and tries < want * 20:
             tries += 1
@@ -356,7 +370,7 @@ class C05(C.Check):
             keys = ["a", "b", "c"][:int(rng.integers(1, 4))]
             insts = gen_insts(rng, n) if len(out) % 2 == 0 else []
             nodes = gen_dag(rng, n, keys, int(rng.integers(4, 14)), linear_ok=True, insts=insts)
-            if nodes[-1][0] in ("sum", "prod") and any(nd[0] in ("scale", "diag") for nd in nodes):
+            if nodes[-1][0] in ("sum", "prod") and any(nd[0] in ("scale", "diag", "dlin") for nd in nodes):
                 out.append({"kind": "dag", "n": n, "keys": keys, "nodes": nodes, "insts": insts})
         return out
 
@@ -419,8 +433,8 @@ class C05(C.Check):
                 if f:
                     res.add_failing(sig(f), f[1], c)
         order = list(hints) + [i for i in range(len(self.cases)) if i not in set(hints)]
-        lim = (40 if ctx.quick else 400) * budget
-        allcases = list(self.cases) + self.gen_linear_cases(ctx, (25 if ctx.quick else 250) * budget)
+        lim = (80 if ctx.quick else 500) * budget
+        allcases = list(self.cases) + self.gen_linear_cases(ctx, (120 if ctx.quick else 600) * budget)
         order = order[:lim] + list(range(len(self.cases), len(allcases)))
         for ci in order:
             c = allcases[ci]
